@@ -29,8 +29,15 @@ CENTRES = ["C", "N", "O", "F", "S", "P", "B", "Cl", "[C+]", "[C-]", "[N+]", "[O-
            "[Xe]", "[H]", "[S-]", "[13C]", "[NH4+]", "[CH4]"]
 PAIR = ["C", "N", "O", "S", "[N+]", "[CH2]", "[Fe]", "[O-]"]
 SUB = {1: "F", 2: "=O", 3: "#N"}
-TABLES = list(tables.ALL) + ["t8"]
-EXTRA_TABLES = {"t8": {"C": 5, "N": 4, "O": 3, "F": 2, "S": 1, "N+1": 0, "Fe": 3, "?": 1}}
+# order matters: consecutive tables include a strict sub-table (keys dropped), a super-table and a one-value change
+TABLES = ["default", "default-sub", "default-sub+Fe", "octet_rule", "hypervalent", "zero", "mix", "mix-sub", "big", "t8", "t8-mod"]
+_DEF = {"H": 1, "F": 1, "Cl": 1, "Br": 1, "I": 1, "B": 3, "B+1": 2, "B-1": 4, "O": 2, "O+1": 3, "O-1": 1, "N": 3, "N+1": 4,
+        "N-1": 2, "C": 4, "C+1": 3, "C-1": 3, "P": 5, "P+1": 4, "P-1": 6, "S": 6, "S+1": 5, "S-1": 5, "?": 8}
+EXTRA_TABLES = {"t8": {"C": 5, "N": 4, "O": 3, "F": 2, "S": 1, "N+1": 0, "Fe": 3, "?": 1},
+                "t8-mod": {"C": 5, "N": 4, "O": 3, "F": 2, "S": 1, "N+1": 2, "Fe": 3, "?": 1},
+                "default-sub": {k: v for k, v in _DEF.items() if k not in ("S", "S-1", "N+1", "O-1", "C+1", "F", "H")},
+                "default-sub+Fe": dict({k: v for k, v in _DEF.items() if k not in ("S", "S-1", "N+1", "O-1", "C+1", "F", "H")}, Fe=2),
+                "mix-sub": {"C": 4, "O": 1, "?": 2}}
 
 
 def multisets(max_total, max_items=99):
@@ -91,7 +98,9 @@ def install(tn):
     if tn in EXTRA_TABLES:
         _SF.set_semantic_constraints(dict(EXTRA_TABLES[tn]))
         return _SF.get_semantic_constraints()
-    return tables.set_table(_SF, tn)
+    if tn in tables.CUSTOM or tn in tables.PRESET_NAMES:
+        return tables.set_table(_SF, tn)
+    raise KeyError(tn)
 
 
 def check(smi, r):
